@@ -18,6 +18,56 @@ def untag(v):
     return {"b": 0, "k": "id", "p": [v]}
 
 
+# Results that look like "nothing" or like an end marker.  In an odd-results mode the harness Sources and
+# fill elements yield, instead of the tagged result (b, k, p), a stand-in that is a function of the tag
+# (so the expected output is still computable from the model's tagged output):
+#   "none"  every result is None;  "mix"  ODD_RESULTS[hash of the tag]
+ODD_RESULTS = [None, 0, "", (), [], False, StopIteration, StopIteration("x")]
+RESULT_MODE = {"mode": None}
+
+
+def odd_of(b, k, p):
+    if RESULT_MODE["mode"] == "none":
+        return None
+    return ODD_RESULTS[(3 * b + len(p) + sum(x for x in p if type(x) is int) + (k != "c")) % len(ODD_RESULTS)]
+
+
+def result(b, k, p):
+    """What a harness Source / fill element yields for its tagged result."""
+    return tag(b, k, p) if RESULT_MODE["mode"] is None else odd_of(b, k, tuple(p))
+
+
+def expected_result(rec):
+    """Spec record of a result -> the real value expected in the current odd-results mode."""
+    if rec["k"] in ("s", "c", "r"):
+        return odd_of(rec["b"], rec["k"], tuple(rec["p"]))
+    return tag(rec["b"], rec["k"], rec["p"])
+
+
+def same_result(a, b):
+    if a is b:
+        return True
+    if type(a) is not type(b):
+        return False
+    if isinstance(a, BaseException):
+        return a.args == b.args
+    if isinstance(a, (tuple, list)):
+        return len(a) == len(b) and all(same_result(x, y) for x, y in zip(a, b))
+    return a == b
+
+
+class odd_results(object):
+    def __init__(self, mode):
+        self.mode = mode
+
+    def __enter__(self):
+        RESULT_MODE["mode"] = self.mode
+
+    def __exit__(self, *exc):
+        RESULT_MODE["mode"] = None
+        return False
+
+
 class TSrc(object):
     def __init__(self, b, m=2):
         self.b, self.m, self.calls = b, m, 0
@@ -25,7 +75,7 @@ class TSrc(object):
     def __call__(self):
         self.calls += 1
         for i in range(1, self.m + 1):
-            yield tag(self.b, "s", (i,))
+            yield result(self.b, "s", (i,))
 
 
 class TFill(object):
@@ -45,10 +95,10 @@ class TFill(object):
     def _results(self, k):
         self.invoked += 1
         if self.m is None:
-            yield tag(self.b, k, self.filled)
+            yield result(self.b, k, self.filled)
         else:
             for i in range(1, self.m + 1):
-                yield tag(self.b, k, [i] + self.filled)
+                yield result(self.b, k, [i] + self.filled)
 
     def hreset(self):
         self.filled, self.nf = [], 0
